@@ -31,6 +31,7 @@ import Pandora.Bridge.C03Comp
 import Pandora.Proofs.C03Pool
 import Pandora.Bridge.C03Pool
 import Pandora.Proofs.C03Leaf
+import Pandora.Bridge.C03Wiring
 
 namespace Pandora.Props.C03
 open Pandora.Model.C03 Pandora.Proofs.C03
@@ -853,4 +854,49 @@ example : ∃ l, Pandora.Proofs.C03Leaf.lrun ⟨true, 1, none, false, 2⟩ ⟨0,
      (4, .rel 1 1), (5, .chk 1 0)] = some l ∧
     l.pool.terminal = true ∧ l.pool.fired = 2 ∧ (l.own.map (·.i)) = [1, 1] := by
   refine ⟨_, rfl, by decide, by decide, by decide⟩
+
+/-! ### the glue around the loop, REGENERATED (round 6: `Pandora.Model.C03Wiring`, `Pandora.Bridge.C03Wiring`) -/
+
+/-- what the accounting model takes for granted about the code around the loop, re-read from the current source on every run:
+the instances of a pool are handed the POOL's provider, aggregator, metrics and `discard_overflow` flag and the schedule factory
+`buildNewInstanceSchedule` chose (`startInstances`; whatever the order of the fields or the number of steps the literal is built
+in); `newPool` keeps the metrics and the configuration it is given and `Engine.Run` gives every pool the engine's metrics (one
+Request / Response pair for all pools: `C03_metrics_engine`); the end of the ammo is reported by returning the package-level
+error value itself and recognised by comparing with it; `Counter.Add` is ONE atomic addition of the delta it is given and `Get`
+one atomic load (`reqAdd` / `respAdd` are atomic steps of the model); the sample reported for a discarded request carries the
+tag `DiscardedShootTag`; the built-in `dummy` provider hands out the untyped nil as a VALID item -/
+theorem C03_source_wiring :
+    Pandora.Model.C03Wiring.restrict Pandora.Gen.InstLoop.depsWiring Pandora.Model.C03Wiring.deps = Pandora.Model.C03Wiring.deps ∧
+    Pandora.Model.C03Wiring.restrict Pandora.Gen.InstLoop.poolWiring Pandora.Model.C03Wiring.pool = Pandora.Model.C03Wiring.pool ∧
+    Pandora.Gen.InstLoop.engineNewPoolCalls = Pandora.Model.C03Wiring.engineNewPool ∧
+    (Pandora.Gen.InstLoop.outOfAmmoReturns = ["return outOfAmmoErr"] ∧
+     Pandora.Gen.InstLoop.outOfAmmoTests = ["<run result>.Err == outOfAmmoErr"]) ∧
+    (Pandora.Gen.InstLoop.counterAddAccesses = ["i.Add"] ∧ Pandora.Gen.InstLoop.counterAddPassesDelta = true ∧
+     Pandora.Gen.InstLoop.counterGetAccesses = ["i.Load"]) ∧
+    Pandora.Gen.InstLoop.discardedSampleTag.1 = Pandora.Gen.InstLoop.discardedSampleTag.2 ∧
+    Pandora.Gen.InstLoop.dummyAcquireReturns = ["nil, true"] :=
+  ⟨Pandora.Bridge.C03Wiring.deps_eq, Pandora.Bridge.C03Wiring.pool_eq, Pandora.Bridge.C03Wiring.engine_newPool_eq,
+   Pandora.Bridge.C03Wiring.out_of_ammo_sentinel, Pandora.Bridge.C03Wiring.counter_atomic,
+   Pandora.Bridge.C03Wiring.discarded_tag.1, Pandora.Bridge.C03Wiring.dummy_acquire⟩
+
+-- falsifiability of `C03_source_iteration_is_model_path` in the new dimension (the VALUE of an item): a body that also leaves
+-- the iteration when the item is nil (`if !ok || ammo == nil { return outOfAmmoErr }`) is accepted for every non-nil item
+-- but NOT for a nil one — the item was handed out (`ok = true`), is neither fired nor released, the instance leaves `Run`
+example : Pandora.Model.C03Loop.bodyAccepted
+    [.acquireOrReturnIf "ammo" ["nil"] false, .deferRelease "ammo", .waitOrReturn, .ifFire, .metricAdd "Request" 1, .shoot "ammo",
+     .metricAdd "Response" 1, .orElse, .reportDiscard, .endIf, .returnNil] = false ∧
+    Pandora.Model.C03Loop.allOracles.all (fun o => Pandora.Model.C03Loop.pathAccepted
+      [.acquireOrReturnIf "ammo" ["nil"] false, .deferRelease "ammo", .waitOrReturn, .ifFire, .metricAdd "Request" 1, .shoot "ammo",
+       .metricAdd "Response" 1, .orElse, .reportDiscard, .endIf, .returnNil] false o) = true := by decide
+
+-- … while the same statement without a value test (`if !ok || false`-like: no tests) is the plain acquire
+example : Pandora.Model.C03Loop.bodyAccepted
+    [.acquireOrReturnIf "ammo" [] false, .deferRelease "ammo", .waitOrReturn, .ifFire, .metricAdd "Request" 1, .shoot "ammo",
+     .metricAdd "Response" 1, .orElse, .reportDiscard, .endIf, .returnNil] = true := by decide
+
+-- falsifiability of `C03_source_wiring`: instances wired to a constant `discardOverflow` do not pass
+example : Pandora.Model.C03Wiring.restrict
+    [("aggregator", "$.Aggregator"), ("discardOverflow", "false"), ("metrics", "$.metrics"), ("newSchedule", "param#2"),
+     ("provider", "$.Provider")] Pandora.Model.C03Wiring.deps ≠ Pandora.Model.C03Wiring.deps := by decide
+
 end Pandora.Props.C03
